@@ -107,9 +107,34 @@ theorem C07_nested_inner_order (par : Bool) (pfx : Inst) (l : List (Ev Inst)) (h
     (l1 l2 : List (Ev Inst)) (hsplit : l = l1 ++ Ev.F y :: l2) : Ev.D x ∈ l1 :=
   traces_before hl (L.nodup par pfx) x y (before_nested_inner par L.tl pfx ht hb hxy) l1 l2 hsplit
 
+/-- **C07 (inner dispatches run one after the other).** A batch whose controller dispatches its
+inner dispatcher `n` times: in every execution of the enclosing dispatcher, every system of inner
+dispatch `i` (staged or thread-local, at any depth below it) has dropped its data before any system
+of a later inner dispatch `j` begins to fetch. (This is what the trace engine's ordering oracle over
+instance paths checks on every event log.) -/
+theorem C07_inner_dispatches_in_order (par : Bool) (pfx : Inst) (l : List (Ev Inst)) (hl : Traces (L.task par pfx) l)
+    {t : SysTag} (ht : t ∈ L.stages.flatten.flatten)
+    {ipar : Bool} {stages : Table (List SysTag)} {tl : List SysTag} {bs : List (SysTag × Body)} {n : Nat}
+    (hb : findBody L.bs t = some (batchBody ipar stages tl bs n))
+    {i j : Nat} (hij : i < j) (hj : j < n) {x y : Inst}
+    (hx : x ∈ (nDispatchTask ipar stages tl bs (pfx ++ [t] ++ [i])).sys)
+    (hy : y ∈ (nDispatchTask ipar stages tl bs (pfx ++ [t] ++ [j])).sys)
+    (l1 l2 : List (Ev Inst)) (hsplit : l = l1 ++ Ev.F y :: l2) : Ev.D x ∈ l1 := by
+  refine C07_nested_inner_order L par pfx l hl ht hb ?_ l1 l2 hsplit
+  have := iterBody_before (nDispatchTask ipar stages tl bs) (pfx ++ [t]) (x := x) (y := y) n 0 i j hij hj
+    (by simpa using hx) (by simpa using hy)
+  simpa [batchBody] using this
+
 end Shred
 
 namespace Shred
+/-- non-vacuity of `C07_inner_dispatches_in_order`: in `exLevel` batch `1` is dispatched twice, its
+body is a `batchBody`, and `[1, 0, 6]` (inner dispatch 0) and `[1, 1, 5]` (inner dispatch 1) are systems of it -/
+example : findBody exLevel.bs 1 = some (batchBody true [[[5]], [[6]]] [] [] 2) ∧ (1 : Nat) ∈ exLevel.stages.flatten.flatten ∧
+    ([1, 0, 6] : Inst) ∈ (nDispatchTask true [[[5]], [[6]]] [] [] ([] ++ [1] ++ [0])).sys ∧
+    ([1, 1, 5] : Inst) ∈ (nDispatchTask true [[[5]], [[6]]] [] [] ([] ++ [1] ++ [1])).sys := by
+  refine ⟨rfl, by decide, by decide, by decide⟩
+
 /-- non-vacuity: `exLevel` is a `Level` with a batch whose body is dispatched twice; the inner
 stages `[[5]], [[6]]` order `5` before `6` in every iteration -/
 example : (exLevel.task true []).sys = [[0], [1], [1, 0, 5], [1, 0, 6], [1, 1, 5], [1, 1, 6], [2]] ∧
@@ -117,6 +142,7 @@ example : (exLevel.task true []).sys = [[0], [1], [1, 0, 5], [1, 0, 6], [1, 1, 5
   refine ⟨by decide, Or.inl ⟨0, 1, [[5]], [[6]], by decide, rfl, rfl, by simp, by simp⟩⟩
 end Shred
 
+#print axioms Shred.C07_inner_dispatches_in_order
 #print axioms Shred.C07_batch_reads
 #print axioms Shred.C07_batch_writes
 #print axioms Shred.C07_conflict_lifts
